@@ -195,6 +195,7 @@ type c17Env struct {
 	faultArmed        int // >0: that many writes fail right after the next successful Evict
 	evictFailArmed    int // >0: that many Evict calls are rejected
 	evictedUIDs       map[types.UID]bool
+	lateScheduled     map[types.UID]bool // pods that existed without a node and were scheduled by the environment later
 	faultAfterApply   bool
 	faultsDelivered   int
 	justEvicted       bool
@@ -247,7 +248,7 @@ func c17Describe(obj client.Object) string {
 }
 
 func c17NewEnv(c *vk.Case, scheme *runtime.Scheme) *c17Env {
-	e := &c17Env{c: c, clk: clocktesting.NewFakeClock(c17Epoch), evictedUIDs: map[types.UID]bool{}, preemptState: map[string]int{}}
+	e := &c17Env{c: c, clk: clocktesting.NewFakeClock(c17Epoch), evictedUIDs: map[types.UID]bool{}, preemptState: map[string]int{}, lateScheduled: map[types.UID]bool{}}
 	raw := fake.NewClientBuilder().WithScheme(scheme).
 		WithStatusSubresource(&sev1alpha1.PodMigrationJob{}, &sev1alpha1.Reservation{}).Build()
 	// what an API server does on create
@@ -514,6 +515,12 @@ func (e *c17Env) onEvict(ctx context.Context, job *sev1alpha1.PodMigrationJob, p
 			// (spec.podRef.uid, stamped by the controller itself when the job started)
 			if sig == "evict:reservation-on-pod-node" && api != nil && api.Spec.PodRef != nil && api.Spec.PodRef.UID != "" && api.Spec.PodRef.UID != pod.UID {
 				sig += ":replacement-pod"
+			} else if sig == "evict:reservation-on-pod-node" && resv.Status.Phase == sev1alpha1.ReservationSucceeded {
+				// the reservation is used up, and by the very pod that is being evicted from its node
+				sig += ":consumed-by-the-pod-itself"
+			} else if sig == "evict:reservation-on-pod-node" && e.lateScheduled[pod.UID] {
+				// the pod had no node when the job compared nodes and was placed on the reservation's node afterwards
+				sig += ":pod-scheduled-after-the-check"
 			}
 			e.stamp(sig, "reservation-first job %s evicts pod %s/%s (uid %s, node %q) while its reservation is %s", job.Name, pod.Namespace, pod.Name, pod.UID, pod.Spec.NodeName, c17ResvString(resv))
 		}
@@ -653,6 +660,7 @@ func (e *c17Env) resvGiveUp(r *sev1alpha1.Reservation) {
 
 // resvBindExisting: an existing, not yet scheduled pod of the workload is placed on the reservation's node by consuming it.
 func (e *c17Env) resvBindExisting(r *sev1alpha1.Reservation, p *corev1.Pod, ready bool) {
+	e.lateScheduled[p.UID] = true
 	p.Spec.NodeName = r.Status.NodeName
 	p.Status.Phase = corev1.PodRunning
 	p.Status.Conditions = []corev1.PodCondition{{Type: corev1.PodScheduled, Status: corev1.ConditionTrue}}
@@ -1002,7 +1010,7 @@ func c17JobCond(job *sev1alpha1.PodMigrationJob, typ sev1alpha1.PodMigrationJobC
 
 // colocateNode: under the "colocated" profile, often the node that already holds another job's reservation.
 func (e *c17Env) colocateNode(t *rapid.T, j *c17Job) string {
-	if !e.colocated {
+	if !e.colocated && !e.extended {
 		return ""
 	}
 	for _, o := range e.jobs {
@@ -1100,6 +1108,9 @@ func c17RunTest(t *testing.T, unit string, userInput bool) {
 		e.hist = append(e.hist, fmt.Sprintf("controller defaultMode=%s defaultTTL=%v evictorDeletesPodAtOnce=%v", args.DefaultJobMode, args.DefaultJobTTL.Duration, e.evictImmediate))
 		e.r = e.newReconciler()
 		e.createJob(t)
+		if e.extended && !e.colocated && rapid.Bool().Draw(t, "twoJobs") {
+			maxJobs = 2
+		}
 		if maxJobs > 1 && (e.colocated || rapid.Bool().Draw(t, "secondJobAtStart")) {
 			e.createJob(t)
 		}
@@ -1367,6 +1378,7 @@ func c17RunTest(t *testing.T, unit string, userInput bool) {
 				if err := e.base.Update(c17Ctx, p); err != nil {
 					panic(err)
 				}
+				e.lateScheduled[p.UID] = true
 				e.hist = append(e.hist, fmt.Sprintf("env: pending pod %s scheduled on %s without the reservation", p.Name, node))
 			},
 			"podReady": func(t *rapid.T) {
@@ -1511,10 +1523,7 @@ func c17RunTest(t *testing.T, unit string, userInput bool) {
 				var free []*sev1alpha1.Reservation
 				for _, o := range e.jobs {
 					if fr := e.getResv(o.resvName); fr != nil && bindable(fr) && !ownedByOnePod(fr) {
-						if o == j {
-							free = append(free, fr) // the job's own reservation: twice as likely
-						}
-						free = append(free, fr)
+						free = append(free, fr) // the job's own reservation or another one of the workload, as the scheduler pleases
 					}
 				}
 				if len(free) == 0 {
